@@ -85,7 +85,9 @@ def main():
     from stdnum import util
     table = getattr(util, '_char_map', None)
     if not isinstance(table, dict) or not table:
-        raise run.MachineryError('stdnum.util._char_map (the declared clean-up table) not found')
+        table = {}
+        chk.notes.append('stdnum.util._char_map not found: clause T1 (declared table) skipped, the observed map is used alone')
+        chk.cov['table_binding'] = 'skipped: stdnum.util._char_map not found'
     for src, tgt in sorted(table.items()):
         if len(src) == 1 and len(tgt) == 1:
             evs.insert(len(evs) - 1, {'kind': 'tab', 'src': ord(src), 'tgt': ord(tgt), 'alone': lib.cps(clean(src)),
